@@ -4,7 +4,9 @@ the SAME (model, seed) — `a1`, `a2` (back to back in one process), `b` (after 
 `c` (in a child process) — and the header parameter `tq` (measured `TimerQueue::next` variant).
 
 1. the real traces are compared with each other, line by line, result included: a difference is a
-   concrete failing input (`kind=reject clause=nondeterminism pair=… op=<first differing line>`);
+   concrete failing input (`kind=reject clause=nondeterminism pair=… op=<first differing line>`;
+   `clause=sender-resolution` if the first difference is one delivery whose sender id resolved to
+   different paths);
    the sets of unfinished tasks dropped at tear-down must agree as well; if only their ORDER differs
    the verdict is `kind=reject clause=teardown-order`, if only the clock seen while the network was
    built differs (`bt` lines, header `clock=1`) it is `kind=reject clause=build-time-clock` (both are
@@ -201,7 +203,14 @@ def main (stdin : IO.FS.Stream) : IO Unit := do
       let y := r.raw.push ("res " ++ r.res)
       match firstDiff x y with
       | some i =>
-        verdict := some s!"fail {id} op={i} kind=reject clause=nondeterminism pair=a1/{n} seed={seed} first={us (x[i]?.getD "<end>")} other={us (y[i]?.getD "<end>")}"
+        -- two deliveries that differ only in the path the sender id resolved to: an id collision
+        -- (`ModuleId::NULL` handed out to a module after the u16 counter wrapped)
+        let clause := match (a1.obs[i]?), (r.obs[i]?) with
+          | some o1, some o2 =>
+            if o1.what == "msg" && { o1 with peer := "" } == { o2 with peer := "" } && o1.peer != o2.peer
+            then "sender-resolution" else "nondeterminism"
+          | _, _ => "nondeterminism"
+        verdict := some s!"fail {id} op={i} kind=reject clause={clause} pair=a1/{n} seed={seed} first={us (x[i]?.getD "<end>")} other={us (y[i]?.getD "<end>")}"
       | none =>
         if sortStrings a1.drops != sortStrings r.drops then
           verdict := some s!"fail {id} op={a1.raw.size} kind=reject clause=nondeterminism pair=a1/{n} seed={seed} what=unfinished-task-sets-differ"
